@@ -123,7 +123,7 @@ func (r *Report) Finish() int {
 	if r.WriteClaims {
 		var names []string
 		for _, v := range r.Verdicts {
-			if v.Status == "discharged" && v.Ms < 3000 && !strings.HasPrefix(v.Ob.Kind, "safety.") && v.Ob.Kind != "wframe" {
+			if v.Status == "discharged" && v.Ms < 3000 && !strings.HasPrefix(v.Ob.Kind, "safety.") && v.Ob.Kind != "wframe" && v.Ob.Kind != "consistency" && v.Ob.Kind != "frame" {
 				names = append(names, v.Ob.Name)
 			}
 		}
@@ -132,6 +132,38 @@ func (r *Report) Finish() int {
 		for _, fr := range r.Results {
 			if fr.Stale || fr.Contract == nil {
 				continue
+			}
+			if fr.Err == "" {
+				// consistency of the assumptions at every return (number of returns may change)
+				pre := shortOfKey(fr.Key) + "/"
+				if fr.Contract.SubtypeOf != "" {
+					pre += "subtype@" + shortKey(fr.Contract.SubtypeOf) + "/"
+				}
+				names = append(names, pre+"consist#*")
+			}
+			if fr.Contract.ModSet && fr.Err == "" {
+				// frame obligations exist per heap component the function touches: a later edit that
+				// touches a further component must discharge its obligation too (wildcard), and one that
+				// stops touching a component is no alarm
+				pre := shortOfKey(fr.Key) + "/"
+				if fr.Contract.SubtypeOf != "" {
+					pre += "subtype@" + shortKey(fr.Contract.SubtypeOf) + "/"
+				}
+				clean := true
+				for _, v := range r.Verdicts {
+					if v.Ob.Kind == "frame" && strings.HasPrefix(v.Ob.Name, pre+"frame#") && (v.Status != "discharged" || v.Ms >= 3000) {
+						clean = false
+					}
+				}
+				if clean {
+					names = append(names, pre+"frame#*")
+				} else {
+					for _, v := range r.Verdicts {
+						if v.Ob.Kind == "frame" && strings.HasPrefix(v.Ob.Name, pre+"frame#") && v.Status == "discharged" && v.Ms < 3000 {
+							names = append(names, "?"+v.Ob.Name)
+						}
+					}
+				}
 			}
 			if fr.Contract.WriteFrame {
 				// claim "no write outside fresh/context memory" only for functions that are clean now
